@@ -99,7 +99,20 @@ def s_outside_spec(eng, result, slo, elem, t, x_hat, x):
     Yb = elem.fields["_SingleLayerOperator__log_scheme_m_y"]
     ca, cb = circ(x_hat, x_a, L, glue), circ(x_hat, x_b, L, glue)
     r = to_real(result)
-    return z3.And(z3.Implies(ca < cb, r == E(Ya)), z3.Implies(cb < ca, r == E(Yb)), z3.Implies(ca == cb, z3.Or(r == E(Ya), r == E(Yb))))
+    ra, rb = E(Ya), E(Yb)
+    # Which pre-evaluated point set the result was built from is decided first (validity of r == E(Y.) on this path, a congruence
+    # query); the clause is then the linear statement "that end point is the nearer one".  Without this step a wrong choice is a
+    # disequality of two DOT terms, which the solvers leave undecided (seed C07_12).
+    try:
+        is_a = not eng.feasible(r != ra)
+        is_b = not eng.feasible(r != rb)
+    except Exception:      # noqa
+        is_a = is_b = False
+    if is_a and not is_b:
+        return ca <= cb
+    if is_b and not is_a:
+        return cb <= ca
+    return z3.And(z3.Implies(ca < cb, r == ra), z3.Implies(cb < ca, r == rb), z3.Implies(ca == cb, z3.Or(r == ra, r == rb)))
 
 
 def install(eng):
